@@ -689,6 +689,17 @@ def mutate_case(R, r, t, d, e, obj, view, cls, cache, buf, ops, exp, cctx, sx):
             if T.has_zero_nd(st, nd_):
                 continue
             vs2, arg2 = vsexp(st, nd_, cache, "py")
+            if st[0] == "scalar" and kind == "set" and T.scalars()[st[1]]._dtype.kind == "f" and r.random() < 0.5:
+                # the same number as a NumPy floating scalar of ANOTHER width (it must be converted, not copied byte for byte)
+                try:
+                    fv = float(arg2)
+                    with np.errstate(all="ignore"):
+                        exact16 = fv != fv or float(np.float16(fv)) == fv
+                    if exact16:
+                        arg2 = r.choice([np.float16, np.float32, np.float64])(fv)
+                        R.tags["op.set.numpy-float-other-width"] += 1
+                except Exception:
+                    pass
             before = image(buf)
             cap_b = buf.capacity
             slot_ext = None
